@@ -45,7 +45,7 @@ ASSUMPTIONS = [
     "twice is skipped (probability ~0 with the default generator)",
     "the distance / collision functions are the ones supplied to the planner (library defaults or harness variants); "
     "they are pure, so the check re-evaluates them (memoised per ordered pair of poses)",
-    "a run that exceeds the 20 s guard (rejection sampling that does not terminate) is counted inconclusive",
+    "a run that uses more than 20 s of CPU time (rejection sampling that does not terminate) is counted inconclusive",
     "stored costs are compared at 1e-9 * max(1, cost)",
 ]
 SHARDS = {"quick": 4, "thorough": 16}
@@ -77,23 +77,24 @@ def warm():
 
 
 class _Guard:
-    """Runaway guard.  Unlike a one-shot alarm it keeps firing every 50 ms, because the library swallows exceptions
-    in a bare `except:` (fsr.distance) and a single alarm landing there would be lost."""
+    """Runaway guard on the process's own CPU time (ITIMER_VIRTUAL), so that a loaded machine cannot turn a normal
+    run into an inconclusive one.  Unlike a one-shot alarm it keeps firing every 50 ms, because the library swallows
+    exceptions in a bare `except:` (fsr.distance) and a single signal landing there would be lost."""
 
     def __init__(self, seconds):
         self.seconds = seconds
 
     def _fire(self, signum, frame):
-        raise Inconclusive("guard %ss" % self.seconds)
+        raise Inconclusive("guard %ss of CPU time" % self.seconds)
 
     def __enter__(self):
-        self.old = signal.signal(signal.SIGALRM, self._fire)
-        signal.setitimer(signal.ITIMER_REAL, self.seconds, 0.05)
+        self.old = signal.signal(signal.SIGVTALRM, self._fire)
+        signal.setitimer(signal.ITIMER_VIRTUAL, self.seconds, 0.05)
         return self
 
     def __exit__(self, *a):
-        signal.setitimer(signal.ITIMER_REAL, 0, 0)
-        signal.signal(signal.SIGALRM, self.old)
+        signal.setitimer(signal.ITIMER_VIRTUAL, 0, 0)
+        signal.signal(signal.SIGVTALRM, self.old)
         return False
 
 
@@ -545,14 +546,19 @@ def runs(draw, max_iter):
         typical = b + 0.3 * rb
     if dist_cb == "scaled":
         typical *= 2.5
-    dmax = draw(st.one_of(st.just(100.0), G.floats(0.35, 0.8).map(lambda f: f * typical),
-                          G.floats(0.8, 2.5).map(lambda f: f * typical)))
-    dmin = draw(st.one_of(st.just(0.1), st.just(0.0), G.floats(0.02, 0.3).map(lambda f: f * typical),
-                          G.floats(0.02, 0.3).map(lambda f: f * typical)))
-    dmin = min(dmin, 0.4 * dmax)
     iterations = draw(st.one_of(st.integers(20, max_iter), st.integers(20, max_iter), st.integers(max(20, max_iter // 2), max_iter),
                                 st.integers(1, 19), st.sampled_from([1, 2, 3])))
-    knn = draw(st.one_of(st.integers(1, 20), st.sampled_from([1, 2, 15])))
+    dmax = draw(st.one_of(st.just(100.0), G.floats(0.35, 0.8).map(lambda f: f * typical),
+                          G.floats(0.8, 2.5).map(lambda f: f * typical)))
+    # minimum distance: the rejection loop cannot terminate once the region is packed with nodes that far apart
+    # (random sequential packing jams at ~0.73 (2b/dmin)^3 nodes in the worst case, a position-only generator);
+    # stay below ~1/4 of that for the iteration budget, and well below dmax so the accepting shell is not thin
+    pos_scale = b * (2.5 if dist_cb == "scaled" else 1.0)
+    fmax = min(0.3, 2.0 * (0.2 / (iterations + 1)) ** (1.0 / 3.0))
+    dmin = draw(st.one_of(st.just(min(0.1, fmax * pos_scale)), st.just(0.0), G.floats(0.1, 1.0).map(lambda f: f * fmax * pos_scale),
+                          G.floats(0.5, 1.0).map(lambda f: f * fmax * pos_scale)))
+    dmin = min(dmin, 0.4 * dmax)
+    knn = draw(st.one_of(st.integers(2, 20), st.integers(5, 20), st.integers(1, 20), st.sampled_from([1, 2, 15, 20])))
     return {"seed": seed, "start": [float(v) for v in start + srot], "goal": [float(v) for v in goal + grot],
             "bounds": [[float(a), float(bb)] for a, bb in bounds], "boxes": [[[float(v) for v in lo], [float(v) for v in hi]]
                                                                              for lo, hi in boxes],
@@ -575,6 +581,6 @@ def _tier():
 _STRATEGY = runs(120) if _tier() != "thorough" else st.one_of(runs(120), runs(400))
 
 CLAUSES = [
-    Clause("tree_and_path_invariants", check_run, _STRATEGY, 320, 4000, shrink_quick=False,
+    Clause("tree_and_path_invariants", check_run, _STRATEGY, 320, 8000, shrink_quick=False,
            doc="all invariants of the statement on one planner run (quick: iterations <= 120; thorough: <= 400)"),
 ]
